@@ -1,6 +1,19 @@
 from .nodes import types, expressions, declarations
 
 
+def c_div(x, y):
+    """Integer division as in C: truncate toward zero."""
+    q = abs(x) // abs(y)
+    if (x < 0) != (y < 0):
+        q = -q
+    return q
+
+
+def c_rem(x, y):
+    """Integer remainder as in C: (x / y) * y + x % y == x."""
+    return x - y * c_div(x, y)
+
+
 class ConstantExpressionEvaluator:
     """Class which is capable of evaluating expressions."""
 
@@ -13,6 +26,8 @@ class ConstantExpressionEvaluator:
             value = self.eval_binop(expr)
         elif isinstance(expr, expressions.UnaryOperator):
             value = self.eval_unop(expr)
+        elif isinstance(expr, expressions.TernaryOperator):
+            value = self.eval_ternop(expr)
         elif isinstance(expr, expressions.VariableAccess):
             value = self.eval_variable_access(expr)
         elif isinstance(expr, expressions.NumericLiteral):
@@ -82,11 +97,12 @@ class ConstantExpressionEvaluator:
 
     def eval_unop(self, expr):
         """Evaluate unary operation."""
-        if expr.op in ["-", "~"]:
+        if expr.op in ["-", "~", "!"]:
             a = self.eval_expr(expr.a)
             op_map = {
                 "-": lambda x: -x,
                 "~": lambda x: ~x,
+                "!": lambda x: int(x == 0),
             }
             value = op_map[expr.op](a)
         elif expr.op == "&":
@@ -98,21 +114,47 @@ class ConstantExpressionEvaluator:
     def eval_take_address(self, expr):
         raise NotImplementedError("take address operator: &")
 
+    def eval_ternop(self, expr):
+        """Evaluate the conditional operator (only one branch is evaluated)."""
+        if self.eval_expr(expr.a) != 0:
+            value = self.eval_expr(expr.b)
+        else:
+            value = self.eval_expr(expr.c)
+        return value
+
     def eval_binop(self, expr):
         """Evaluate binary operator."""
+        op = expr.op
+
+        # Logical operators do not evaluate the rhs when lhs decides:
+        if op == "&&":
+            if self.eval_expr(expr.a) == 0:
+                return 0
+            return int(self.eval_expr(expr.b) != 0)
+        elif op == "||":
+            if self.eval_expr(expr.a) != 0:
+                return 1
+            return int(self.eval_expr(expr.b) != 0)
+
         lhs = self.eval_expr(expr.a)
         rhs = self.eval_expr(expr.b)
-        op = expr.op
 
         op_map = {
             "+": lambda x, y: x + y,
             "-": lambda x, y: x - y,
             "*": lambda x, y: x * y,
+            "<": lambda x, y: int(x < y),
+            ">": lambda x, y: int(x > y),
+            "<=": lambda x, y: int(x <= y),
+            ">=": lambda x, y: int(x >= y),
+            "==": lambda x, y: int(x == y),
+            "!=": lambda x, y: int(x != y),
         }
 
-        # Ensure division is integer division:
+        # Ensure division is integer division (C: truncate toward zero):
         if expr.typ.is_integer:
-            op_map["/"] = lambda x, y: x // y
+            op_map["/"] = c_div
+            op_map["%"] = c_rem
             op_map[">>"] = lambda x, y: x >> y
             op_map["<<"] = lambda x, y: x << y
             op_map["|"] = lambda x, y: x | y
